@@ -261,7 +261,7 @@ theorem retransmit_keeps {par : Nat → Sess} {P : Nat → Nat → Nat → Prop}
         simp only [L.getS, hsess]
       rw [this]
       exact delayq_setS_keep l n.sess s _ rfl
-    have ho : (retransmit l n).out = Out.tx l.now n.sess n.mid (n.cnt + 1) n.con :: l.out := hres.1
+    have ho : (retransmit l n).out = Out.tx l.now n.sess n.mid (n.cnt + 1) true :: l.out := by rw [hres.1, hcon]
     have hq : (retransmit l n).q.nodes = (enqueue l.q l.now (n.timeout * 2 ^ (n.cnt + 1)) { n with cnt := n.cnt + 1 }).nodes := by
       rw [hres.2.2]
     simp only [Phi, Psi, ho, hq, hd, hpq, nackC_cons_other s mid _ l.out (Or.inr ⟨_, _, _, _, _, rfl⟩)]
@@ -926,7 +926,7 @@ theorem retransmit_W {par : Nat → Sess} {P : Nat → Nat → Nat → Prop} (hp
         simp only [L.getS, hsess]
       rw [this]
       exact delayq_setS_keep l n.sess s _ rfl
-    have ho : (retransmit l n).out = Out.tx l.now n.sess n.mid (n.cnt + 1) n.con :: l.out := hres.1
+    have ho : (retransmit l n).out = Out.tx l.now n.sess n.mid (n.cnt + 1) true :: l.out := by rw [hres.1, hcon]
     have hq : (retransmit l n).q.nodes =
         (enqueue l.q l.now (n.timeout * 2 ^ (n.cnt + 1)) { n with cnt := n.cnt + 1 }).nodes := by rw [hres.2.2]
     simp only [W, ho, hq, hd, hbq]
